@@ -13,7 +13,7 @@ import itertools
 import re
 
 from verif import core
-from verif.tree import walk, walk_fn, show, strip, stmt_list
+from verif.tree import walk, walk_fn, show, strip, stmt_list, meth
 
 LEVEL = "other"
 
@@ -1060,6 +1060,86 @@ def run(chk):
             for n_ in names:
                 if vals.get(n_) != lab[1]:
                     chk.violation(r_e, key, "ICON[ConnDir] is written as static_cast<int>(direction) (Direction::%s = %s) but from_int<Direction> decodes %s as %s" % (n_, vals.get(n_), lab[1], n_), f["file"], f["l"])
+
+    # ---- C05.act: the ACTIONX run record (IACT / SACT are addressed with integer literals on both sides)
+    r_act = chk.rule("C05.act", "IACT/SACT: the item the reader takes for max_run / run_count / min_wait / last run is the item the writer filled from ActionX::max_run / State::run_count (+1, read back -1) / ActionX::min_wait / State::run_time, with the same measure", floor=4)
+    ax2 = chk.facts([OUT + "AggregateActionxData.cpp", RST + "state.cpp"], files_re="^/repo/opm/(output/eclipse/AggregateActionxData|io/eclipse/rst/state)")
+    wact = {}
+    for f in ax2.fns:
+        if not f["file"].endswith("AggregateActionxData.cpp") or not f.get("body"):
+            continue
+        for n in walk_fn(f):
+            if n["k"] == "Bin" and n.get("asg") and n["op"] == "=":
+                sub_ = subscript(strip(n["c"][0]))
+                if not sub_ or strip(sub_[1])["k"] != "Int":
+                    continue
+                arr = (strip(sub_[0]).get("n") or "").lower()
+                if arr not in ("iact", "sact"):
+                    continue
+                rhs = n["c"][1]
+                accs = sorted({meth(x)[0] for x in walk(rhs) if meth(x)[0] in ("max_run", "run_count", "min_wait", "run_time")})
+                plus = [strip(x["c"][1])["v"] for x in walk(rhs) if x["k"] == "Bin" and x.get("op") == "+" and strip(x["c"][1])["k"] == "Int"]
+                ms = [("1/" if (x.get("m") or "") == "to_si" else "") + measures_in(x["a"][0])[0] for x in walk(rhs) if x["k"] in ("MCall", "Call") and (x.get("m") or "") in ("from_si", "to_si") and x.get("a") and measures_in(x["a"][0])]
+                wact[(arr, strip(sub_[1])["v"])] = dict(accs=accs, plus=sum(plus), measures=ms, l=n["l"], file=f["file"], text=show(rhs)[:80])
+    WANT = {"max_run": ["max_run"], "run_count": ["run_count"], "min_wait": ["min_wait"], "last_run_elapsed": ["run_count", "run_time"]}
+    found = 0
+    for f in ax2.fns:
+        if not f["file"].endswith("rst/state.cpp") or not f.get("body"):
+            continue
+        for n in walk_fn(f):
+            if n["k"] != "Decl":
+                continue
+            for v in n["vars"]:
+                if v["n"] not in WANT or v.get("init") is None:
+                    continue
+                reads = []
+                for x in walk(v["init"]):
+                    sub_ = subscript(x)
+                    if sub_ and (strip(sub_[0]).get("n") or "").lower() in ("iact", "sact"):
+                        lit = [strip(y["c"][1])["v"] for y in walk(sub_[1]) if y["k"] == "Bin" and y.get("op") == "+" and strip(y["c"][1])["k"] == "Int"]
+                        if strip(sub_[1])["k"] == "Int":
+                            lit = [strip(sub_[1])["v"]]
+                        reads.append(((strip(sub_[0]).get("n") or "").lower(), lit[-1] if lit else None))
+                if len(reads) != 1 or reads[0][1] is None:
+                    continue
+                found += 1
+                arr, ix = reads[0]
+                minus = sum(strip(y["c"][1])["v"] for y in walk(v["init"]) if y["k"] == "Bin" and y.get("op") == "-" and strip(y["c"][1])["k"] == "Int")
+                rms = [("1/" if (x.get("m") or "") == "from_si" else "") + measures_in(x["a"][0])[0] for x in walk(v["init"]) if x["k"] in ("MCall", "Call") and (x.get("m") or "") in ("from_si", "to_si") and x.get("a") and measures_in(x["a"][0])]
+                w = wact.get((arr, ix))
+                key = "%s<-%s[%d]" % (v["n"], arr.upper(), ix)
+                chk.instance(r_act, key, sample=dict(reader=v["n"], item="%s[%d]" % (arr.upper(), ix), reader_offset=-minus, reader_measure=rms, writer=w and dict(source=w["accs"], offset=w["plus"], measure=w["measures"], text=w["text"])))
+                if w is None:
+                    chk.violation(r_act, key, "RstState::add_actions takes %s from %s[%d], which AggregateActionxData never fills" % (v["n"], arr.upper(), ix), f["file"], n["l"])
+                    continue
+                if w["accs"] != WANT[v["n"]]:
+                    chk.violation(r_act, key + ":source", "%s is read from %s[%d], but the writer fills that item from %s (`%s`), not from %s" % (v["n"], arr.upper(), ix, "/".join(w["accs"]) or "a constant", w["text"], "/".join(WANT[v["n"]])), w["file"], w["l"])
+                if w["plus"] != minus:
+                    chk.violation(r_act, key + ":offset", "%s[%d] is written with +%d and read back with -%d: the run count changes across a restart" % (arr.upper(), ix, w["plus"], minus), f["file"], n["l"])
+                if not mset_equiv(w["measures"], rms):
+                    chk.violation(r_act, key + ":unit", "%s[%d] is written with measure %s and read with %s" % (arr.upper(), ix, w["measures"] or "none", rms or "none"), f["file"], n["l"])
+    # the time of the last run travels as the time elapsed since the start of the run
+    w4 = wact.get(("sact", 4))
+    if w4 is not None:
+        wsub = None
+        for f in ax2.fns:
+            if f["file"].endswith("AggregateActionxData.cpp") and f.get("body"):
+                for n in walk_fn(f):
+                    if n["k"] == "Bin" and n.get("op") == "-" and not n.get("asg") and n["l"] == w4["l"] and any(meth(x)[0] == "run_time" for x in walk(n["c"][0])):
+                        wsub = show(strip(n["c"][1]))
+        radv = None
+        for f in ax2.fns:
+            if f["file"].endswith("rst/state.cpp") and f.get("body"):
+                for n in walk_fn(f):
+                    if n["k"] == "Call" and (n.get("fn") or "").endswith("TimeService::advance") and len(n.get("a", [])) == 2 and any(x["k"] == "Ref" and x["n"] == "last_run_elapsed" for x in walk(n["a"][1])):
+                        radv = show(strip(n["a"][0]))
+        chk.instance(r_act, "last_run:origin", sample=dict(writer_subtracts=wsub, reader_advances_from=radv))
+        if wsub is None or "start" not in wsub:
+            chk.violation(r_act, "last_run:origin", "SACT[4] must hold run_time - <start of the run> (the reader adds the start time back); the writer stores `%s`" % w4["text"], w4["file"], w4["l"])
+        elif radv is None or "start_time" not in radv:
+            chk.violation(r_act, "last_run:origin", "RstState::add_actions no longer rebuilds the last run time as advance(start_time, SACT[4]) (found %s)" % radv, RST + "state.cpp", None)
+    if found < 4:
+        raise core.AnalysisBroken("RstState::add_actions: only %d of max_run/run_count/min_wait/last_run_elapsed found" % found)
 
     for k_ in deferred:
         if k_ not in used_def:
